@@ -13,6 +13,8 @@ import (
 	gmsl "github.com/matrix-org/gomatrixserverlib"
 	"github.com/matrix-org/gomatrixserverlib/spec"
 
+	"verif/mc/evgen"
+	"verif/mc/ref/refversions"
 	"verif/mc/fedgen"
 	"verif/mc/harness"
 	"verif/mc/srgen"
@@ -513,6 +515,44 @@ func runChain(r *harness.Run, c chainCase) error {
 		return out, nil
 	}
 	target := pdus[real[byNick[c.Target].ID].ID]
+	// before the judged calls, a check that fails half-way: an event of the same room that names a message-like event (no state
+	// key) among its auth events, after the create, power-levels and member events. Nothing of what that refused check
+	// collected may be left for the next one.
+	if p, _ := harness.Try(func() {
+		room := fedgen.RealRoom(h, real)
+		var authIDs []string
+		for _, nick := range []string{"create", "alice", "pl", "jr"} {
+			if e := byNick[nick]; e != nil && real[e.ID] != nil {
+				authIDs = append(authIDs, real[e.ID].ID)
+			}
+		}
+		msgID, poisonID := "$poisonmsg:a.org", "$poisontarget:a.org"
+		if refversions.Get(c.Version).EventFormat != 1 {
+			msgID, poisonID = "$"+strings.Repeat("M", 43), "$"+strings.Repeat("T", 43)
+		}
+		msg := evgen.Ev{Type: "m.room.message", Sender: srgen.Alice, RoomID: room, Content: `{"body":"x"}`, Prev: []string{}, Auth: authIDs, Depth: 50, TS: 50, NoHash: true, EventID: msgID}
+		mp, err := ver.NewEventFromTrustedJSONWithEventID(msgID, msg.JSON(c.Version), false)
+		if err != nil {
+			return
+		}
+		pt := evgen.Ev{Type: "m.room.message", Sender: srgen.Alice, RoomID: room, Content: `{"body":"y"}`, Prev: []string{}, Auth: append(append([]string{}, authIDs...), msgID), Depth: 51, TS: 51, NoHash: true, EventID: poisonID}
+		pp, err := ver.NewEventFromTrustedJSONWithEventID(poisonID, pt.JSON(c.Version), false)
+		if err != nil {
+			return
+		}
+		withMsg := func(v gmsl.RoomVersion, ids []string) ([]gmsl.PDU, error) {
+			out, _ := provider(v, ids)
+			for _, id := range ids {
+				if id == msgID {
+					out = append(out, mp)
+				}
+			}
+			return out, nil
+		}
+		_ = gmsl.VerifyEventAuthChain(context.Background(), pp, withMsg, fedgen.UID)
+	}); p {
+		return fmt.Errorf("VerifyEventAuthChain panics on an event that cites a message-like event as an auth event")
+	}
 	var got, gotEager error
 	if p, msg := harness.Try(func() { got = gmsl.VerifyEventAuthChain(context.Background(), target, provider, fedgen.UID) }); p {
 		return fmt.Errorf("VerifyEventAuthChain panics: %s", msg)
